@@ -15,6 +15,8 @@ import (
 	grpcammo "github.com/yandex/pandora/components/providers/grpc"
 	"github.com/yandex/pandora/core"
 	"github.com/yandex/pandora/core/aggregator/netsample"
+
+	"verifharness/internal/vt"
 )
 
 const mfPadChar = "~"
@@ -46,18 +48,24 @@ func mfWellFormed(format, id string) mfEntry {
 	return e
 }
 
+// uri / uripost: every entry sets its own in-file header state, so that a header line that reaches an entry
+// it does not belong to (before or after it) shows in the delivered request
+func (e mfEntry) hdrLines() string {
+	return "[X-Seq: " + e.ID + "]\n[Host: " + e.ID + ".example.org]\n"
+}
+
 func (e mfEntry) padStr() string { return strings.Repeat(mfPadChar, e.Pad) }
 
 // one well-formed entry in the given format
 func (e mfEntry) render(format string) string {
 	switch format {
 	case "uri":
-		return e.URI + e.padIn("&pad=") + " " + e.Tag + "\n"
+		return e.hdrLines() + e.URI + e.padIn("&pad=") + " " + e.Tag + "\n"
 	case "uripost":
 		if e.Total > 0 {
 			e.Body += strings.Repeat(mfPadChar, e.Total-len(e.Body))
 		}
-		return fmt.Sprintf("%d %s%s %s\n%s\n", len(e.Body), e.URI, e.padIn("&pad="), e.Tag, e.Body)
+		return e.hdrLines() + fmt.Sprintf("%d %s%s %s\n%s\n", len(e.Body), e.URI, e.padIn("&pad="), e.Tag, e.Body)
 	case "raw":
 		if e.Total > 0 {
 			// the Content-Length digits change with the body: fit by iteration
@@ -145,6 +153,10 @@ func mfRenderItem(format, cls string, rest string) (string, *mfEntry) {
 			return sz + " x\nGET /x HTTP/1.1\r\nHost: h\r\n\r\n\n", nil
 		}
 		return sz + " /x x\nhello\n", nil
+	case "hdr_tail":
+		return "[X-Seq: late]\n[Host: evil.example.org]\n[X-Late: leaked]\n[broken header line\n", nil
+	case "hdr_late":
+		return "[X-Seq: late]\n[Host: evil.example.org]\n[X-Late: leaked]\n", nil
 	case "hdr_nocolon":
 		return "[Host example.org]\n", nil
 	case "hdr_nobracket":
@@ -200,6 +212,9 @@ func mfIDs(prefix string, n int) []string {
 func mfRenderCase(c mfCase) ([]byte, []mfEntry) {
 	var entries []mfEntry
 	var pre, post []string
+	if c.Cls == "long" {
+		return mfRenderLong(c)
+	}
 	for _, id := range mfIDs("e", c.Np) {
 		e := mfWellFormed(c.Format, id)
 		entries = append(entries, e)
@@ -218,7 +233,14 @@ func mfRenderCase(c mfCase) ([]byte, []mfEntry) {
 		sep = ",\n"
 	}
 	rest := strings.Join(post, sep)
-	item, x := mfRenderItem(c.Format, c.Cls, rest)
+	var item string
+	var x *mfEntry
+	if c.Cls == "cut" {
+		point, _ := c.Arg[0].(string)
+		item, x = mfRenderCut(c.Format, point)
+	} else {
+		item, x = mfRenderItem(c.Format, c.Cls, rest)
+	}
 	if x != nil {
 		entries = append(entries, *x)
 	}
@@ -261,7 +283,8 @@ func mfProjectHTTP(a core.Ammo) mfDelivery {
 		return mfDelivery{Tag: fmt.Sprintf("?%T", a)}
 	}
 	req, sample := ra.Request()
-	d := mfDelivery{Tag: sample.Tags(), Method: req.Method, URI: req.URL.RequestURI(), Common: req.Header.Get("X-Common")}
+	d := mfDelivery{Tag: sample.Tags(), Method: req.Method, URI: req.URL.RequestURI(), Common: req.Header.Get("X-Common"),
+		Seq: req.Header.Get("X-Seq"), Host: req.Host, rawURI: req.URL.RequestURI(), keep: req}
 	if req.URL.Path == "" && req.URL.RawQuery == "" {
 		d.URI = ""
 	}
@@ -330,6 +353,9 @@ func mfIdentify(d mfDelivery, entries []mfEntry) string {
 			}
 			continue
 		}
+		if (e.Fmt == "uri" || e.Fmt == "uripost") && (d.Seq != e.ID || d.Host != e.ID+".example.org") {
+			continue
+		}
 		if e.Total > 0 {
 			// a padded body: same length and same content as rendered
 			if d.Tag == e.Tag && d.Method == e.Method && d.URI == e.URI && d.Common == "c" && mfPaddedBodyOK(d.Body, e, e.Fmt) {
@@ -341,7 +367,7 @@ func mfIdentify(d mfDelivery, entries []mfEntry) string {
 			return e.ID
 		}
 	}
-	return trunc(fmt.Sprintf("other(tag=%q method=%q uri=%q body=%q common=%q)", trunc(d.Tag, 20), d.Method, trunc(d.URI, 30), trunc(d.Body, 20), d.Common), 150)
+	return trunc(fmt.Sprintf("other(tag=%q method=%q uri=%q body=%q common=%q seq=%q host=%q)", trunc(d.Tag, 20), d.Method, trunc(d.URI, 30), trunc(d.Body, 20), d.Common, d.Seq, d.Host), 190)
 }
 
 // the body of an entry rendered with Total: the original body followed by filler up to the rendered length
@@ -356,4 +382,53 @@ func mfPaddedBodyOK(got string, e mfEntry, format string) bool {
 	// raw: head + body = Total
 	head := fmt.Sprintf("%s %s HTTP/1.1\r\nHost: raw.example.org\r\nX-Common: c\r\nContent-Length: %d\r\n\r\n", e.Method, e.URI, len(got))
 	return len(head)+len(got) == e.Total
+}
+
+// cut: the entry x, cut at an exact point (the file ends there; Malformed!CutPoints)
+func mfRenderCut(format, point string) (string, *mfEntry) {
+	x := mfWellFormed(format, "x")
+	full := x.render(format) // [header lines] size line \n body \n
+	hdr := ""
+	if format == "uripost" {
+		hdr = x.hdrLines()
+	}
+	rest := strings.TrimPrefix(full, hdr)
+	nl := strings.Index(rest, "\n")
+	sizeLine, body := rest[:nl], strings.TrimSuffix(rest[nl+1:], "\n")
+	if len(body) < 3 {
+		machinery("cut: body too short")
+	}
+	switch point {
+	case "sizeline_mid":
+		return hdr + sizeLine[:1], nil
+	case "sizeline_nonl":
+		return hdr + sizeLine, nil
+	case "sizeline":
+		return hdr + sizeLine + "\n", nil
+	case "body1":
+		return hdr + sizeLine + "\n" + body[:1], nil
+	case "bodym1":
+		return hdr + sizeLine + "\n" + body[:len(body)-1], nil
+	case "body_nonl":
+		return hdr + sizeLine + "\n" + body, &x
+	}
+	machinery("unknown cut point %q", point)
+	return "", nil
+}
+
+// long: arg = <<lines, period, passes>>; grpc/json, ids "1".."n", undecodable lines at 2 and at multiples of period
+func mfRenderLong(c mfCase) ([]byte, []mfEntry) {
+	n, period := vt.Int(c.Arg[0]), vt.Int(c.Arg[1])
+	var sb strings.Builder
+	var entries []mfEntry
+	for i := 1; i <= n; i++ {
+		if period != 0 && (i == 2 || i%period == 0) {
+			sb.WriteString(`{"tag":"bad","call":` + "\n")
+			continue
+		}
+		e := mfWellFormed(c.Format, fmt.Sprint(i))
+		entries = append(entries, e)
+		sb.WriteString(e.render(c.Format))
+	}
+	return []byte(sb.String()), entries
 }
